@@ -28,8 +28,27 @@ def text(c):
 
 
 # ------------------------------------------------------------------------------------------------ build
+def _harness_dir():
+    """The registered checks always build /verif/harness against /repo's working tree.  The seed tools may point the
+    build at a scratch copy of the repository instead (LSV_REPO_OVERRIDE) so that /repo itself stays untouched: the
+    harness sources are then mirrored into out/harness_ovr with the dependency path rewritten."""
+    ovr = os.environ.get("LSV_REPO_OVERRIDE")
+    if not ovr:
+        return HARNESS
+    d = os.path.join(OUT, "harness_ovr_" + hashlib.sha1(ovr.encode()).hexdigest()[:8])
+    os.makedirs(os.path.join(d, "src"), exist_ok=True)
+    os.makedirs(os.path.join(d, ".cargo"), exist_ok=True)
+    for f in ("src/main.rs", "src/comp.rs", "Cargo.lock", ".cargo/config.toml"):
+        shutil.copy(os.path.join(HARNESS, f), os.path.join(d, f))
+    toml = open(os.path.join(HARNESS, "Cargo.toml")).read().replace('path = "/repo/rust/core"', 'path = "%s/rust/core"' % ovr)
+    if not os.path.exists(os.path.join(d, "Cargo.toml")) or open(os.path.join(d, "Cargo.toml")).read() != toml:
+        open(os.path.join(d, "Cargo.toml"), "w").write(toml)
+    return d
+
+
 def build(profile):
     """profile: 'checked' (hooks on, overflow + debug assertions) or 'shipping' (release, guard off)."""
+    HARNESS = _harness_dir()
     env = dict(os.environ)
     env["CARGO_NET_OFFLINE"] = "true"
     if profile == "checked":
